@@ -40,9 +40,9 @@ def run_pair(run, family, stream, cases, rule, args=(), impl_family=None, timeou
 def totality(run, stream, cases, io):
     """for every configuration map: nil or error, never a panic, and a failed Refresh leaves the package reusable"""
     run.obligations += 1
-    bad = [(c, o) for c, o in zip(cases, io) if o.startswith('panic') or 'STILL-INITIALISED' in o]
+    bad = [(c, o) for c, o in zip(cases, io) if o.startswith('panic') or o.startswith('timeout') or 'STILL-INITIALISED' in o]
     for c, o in bad[:3]:
-        run.add_violation('oracle:' + stream + '/totality', 'configuration makes the implementation panic (or leaves it initialised after a failure): ' + o[:300],
+        run.add_violation('oracle:' + stream + '/totality', 'configuration makes the implementation panic or never return (or leaves it initialised after a failure): ' + o[:300],
                           ['family ' + stream.split('/')[0].replace('c15/', ''), 'case ' + c, 'impl ' + o[:1500]])
     if not bad:
         run.discharged += 1
